@@ -82,8 +82,8 @@ PROPS = {
     },
     "C06": {
         "title": "Over the network SET/GET/DEL answer exactly as the map model, in order",
-        "rules": [k2s.p11_command_application, k2s.p12_handler_loop, k4.v2_parse_frame, k4.v3_read_frame_eof, k4.v6_write_frame_flushes, k3.s9_command_table, k2.p6b_pool_filled, k2.p3_publish_after_append, k2.p18_handle_delegation, k8.s9b_client_encoders, k8.v7_argument_parsers, k9.s19_value_transparency, k9.s20_client_response_mapping, k9.s18_encoder_sequence, k9.s21_forwarding, k9.b1_server_binary_lifetime, k9.s23_argument_errors_reject, k1.w5_permit_ops],
-        "decides": "one reply per applied command, after the storage call completed, none on error paths, with the prescribed variant and the stored bytes; DEL counts Ok(true); the connection loop is read→parse→apply→reply; Incomplete ⇒ read more; exactly the checked length is consumed on every path and the read buffer is never replaced; every reply is flushed unconditionally; command names matched by full equality; DEL processes every key; arguments: only bulk strings, list ends only when exhausted, GET/SET reject trailing arguments; delete reports presence from under the writer lock; client encoders use the dispatched literals; no partial writes; Ok(None) only on Incomplete; values are carried as the bytes received (Set takes its value from get_bytes, apply passes the command's own key/value, GET replies with the store's bytes); the client writes its request before reading one response and maps replies per command; the encoder emits the RESP sequence per frame kind; the KeyValueStorage impl maps set/get/del to put/get/delete; the server binary keeps the store open while serving; argument errors reject the whole command; a connection slot is released in Handler's Drop on every way a handler ends (errors included), so later connections are still accepted and answered; the socket is read only after the buffered bytes were tried (requests that arrive in one segment are all answered)",
+        "rules": [k2s.p11_command_application, k2s.p12_handler_loop, k4.v2_parse_frame, k4.v3_read_frame_eof, k4.v6_write_frame_flushes, k3.s9_command_table, k2.p6b_pool_filled, k2.p3_publish_after_append, k2.p18_handle_delegation, k8.s9b_client_encoders, k8.v7_argument_parsers, k9.s19_value_transparency, k9.s20_client_response_mapping, k9.s18_encoder_sequence, k9.s21_forwarding, k9.b1_server_binary_lifetime, k9.s23_argument_errors_reject, k1.w5_permit_ops, k10.v9_no_size_limit],
+        "decides": "one reply per applied command, after the storage call completed, none on error paths, with the prescribed variant and the stored bytes; DEL counts Ok(true); the connection loop is read→parse→apply→reply; Incomplete ⇒ read more; exactly the checked length is consumed on every path and the read buffer is never replaced; every reply is flushed unconditionally; command names matched by full equality; DEL processes every key; arguments: only bulk strings, list ends only when exhausted, GET/SET reject trailing arguments; delete reports presence from under the writer lock; client encoders use the dispatched literals; no partial writes; Ok(None) only on Incomplete; values are carried as the bytes received (Set takes its value from get_bytes, apply passes the command's own key/value, GET replies with the store's bytes); the client writes its request before reading one response and maps replies per command; the encoder emits the RESP sequence per frame kind; the KeyValueStorage impl maps set/get/del to put/get/delete; the server binary keeps the store open while serving; argument errors reject the whole command; a connection slot is released in Handler's Drop on every way a handler ends (errors included), so later connections are still accepted and answered; the socket is read only after the buffered bytes were tried (requests that arrive in one segment are all answered); the parser compares an announced length only with the bytes at hand or 0/-1 (no size limit of its own: a large value is not refused)",
         "not_decided": "byte-for-byte value equality and segmentation independence as observed behaviour",
     },
     "C07": {
@@ -94,8 +94,8 @@ PROPS = {
     },
     "C08": {
         "title": "RESP encoding and decoding round-trip, independent of stream chunking",
-        "rules": [k3.s4_resp_tag_tables, k4.v3_read_frame_eof, k4.v2_parse_frame, k4.kdec_decimal_buffer, k4.v6_write_frame_flushes, k9.s18_encoder_sequence, k9.v8_who_says_incomplete, k9.s17_sign_discipline],
-        "decides": "encoder/parser/checker tag tables mutually inverse incl. the Null literal; EOF inside a frame ⇒ error, at a boundary ⇒ clean end; Incomplete ⇒ read more; consumed = checked length, buffer never replaced; decimal scratch buffer ≥ 20 bytes; frames flushed; the stream is read only after the buffer was tried; Ok(None) only on Incomplete; no partial-write API; per frame kind the encoder emits type byte, text/decimal, CRLF, payload, CRLF in the RESP order, the bulk length is the payload's own length and the array count the number of items written; write_decimal sends exactly the formatted bytes; Incomplete is constructed only at the reviewed byte-shortage tests of the reader helpers — check declares nothing incomplete on its own; negative numbers are accumulated downwards (so that i64::MIN, which the encoder can write, is read back)",
+        "rules": [k3.s4_resp_tag_tables, k4.v3_read_frame_eof, k4.v2_parse_frame, k4.kdec_decimal_buffer, k4.v6_write_frame_flushes, k9.s18_encoder_sequence, k9.v8_who_says_incomplete, k9.s17_sign_discipline, k10.v9_no_size_limit],
+        "decides": "encoder/parser/checker tag tables mutually inverse incl. the Null literal; EOF inside a frame ⇒ error, at a boundary ⇒ clean end; Incomplete ⇒ read more; consumed = checked length, buffer never replaced; decimal scratch buffer ≥ 20 bytes; frames flushed; the stream is read only after the buffer was tried; Ok(None) only on Incomplete; no partial-write API; per frame kind the encoder emits type byte, text/decimal, CRLF, payload, CRLF in the RESP order, the bulk length is the payload's own length and the array count the number of items written; write_decimal sends exactly the formatted bytes; Incomplete is constructed only at the reviewed byte-shortage tests of the reader helpers — check declares nothing incomplete on its own; negative numbers are accumulated downwards (so that i64::MIN, which the encoder can write, is read back); the parser imposes no size limit on announced lengths",
         "not_decided": "round-trip equality and 'every strict prefix is incomplete' as universally quantified statements over encodings",
     },
     "C09": {
@@ -106,8 +106,8 @@ PROPS = {
     },
     "C10": {
         "title": "Hostile or malformed input harms only the connection that sent it",
-        "rules": [k2s.p10_accept_loop, k2s.p12_handler_loop, k1.w4_no_abort, controls.control("W4"), k5.r1_bounded_recursion, controls.control("R1"), k1.w5_permit_ops, k3.s9_command_table, k8.p10b_accept_backoff, k4.v3_read_frame_eof, k8.v7_argument_parsers, k9.s23_argument_errors_reject, k9.p12b_read_error_ends_handler],
-        "decides": "each connection runs in its own spawned task that owns its Handler (a panic ends one task; the permit returns via Drop); only commands validated by Command::try_from reach set/del, names by full equality; no exit/abort/panic=abort; recursion bounded; listen() ends only when accept() itself gave up after its back-off; a half-sent frame ends the handler; malformed arguments are errors; an argument that fails to parse rejects the whole command (no command built from the arguments read so far); a read_frame error ends the handler instead of retrying on the same bytes",
+        "rules": [k2s.p10_accept_loop, k2s.p12_handler_loop, k1.w4_no_abort, controls.control("W4"), k5.r1_bounded_recursion, controls.control("R1"), k1.w5_permit_ops, k3.s9_command_table, k8.p10b_accept_backoff, k4.v3_read_frame_eof, k8.v7_argument_parsers, k9.s23_argument_errors_reject, k9.p12b_read_error_ends_handler, k10.a1_receive_allocations],
+        "decides": "each connection runs in its own spawned task that owns its Handler (a panic ends one task; the permit returns via Drop); only commands validated by Command::try_from reach set/del, names by full equality; no exit/abort/panic=abort; recursion bounded; listen() ends only when accept() itself gave up after its back-off; a half-sent frame ends the handler; malformed arguments are errors; an argument that fails to parse rejects the whole command (no command built from the arguments read so far); a read_frame error ends the handler instead of retrying on the same bytes; no allocation on the network path is sized by a value the peer controls (constants and lengths of data already in memory only)",
         "not_decided": "that other connections observe correct answers meanwhile",
     },
     "C11": {
